@@ -35,6 +35,7 @@ def run(ctx):
     ctx.guard(rule_d, ctx, ix)
     ctx.guard(rule_e, ctx, ix)
     ctx.guard(rule_f, ctx, ix)
+    ctx.guard(rule_g, ctx, ix)
 
 
 def _table(ix, mod, name):
@@ -446,3 +447,28 @@ def rule_f(ctx, ix):
 def _guard_text(pm, st, stop):
     gs = [g for g, br in guard_chain(pm, st, stop) if isinstance(g, ast.If)]
     return unparse(gs[0].test)[:50] if gs else ''
+
+
+def rule_g(ctx, ix):
+    """The view of compute_statistic is a tuple of caller-supplied slices / indices (negative bounds count from the end): its
+    entries are normalised (slice.indices(n), range(n)[i], i % n) before they are added to anything."""
+    from ..relidx import make_classifier, position_arithmetic, REL
+    R = 'C10.g'
+    ctx.describe(R, 'entries of the statistic view are normalised before any position arithmetic', floor=2)
+    n = 0
+    for cq in ('glue.core.data.BaseCartesianData', 'glue.core.data.Data'):
+        c = ix.cls(cq)
+        for name, mem in sorted(c.members.items()):
+            f = mem.func
+            if f is None or f.cls is not c or 'view' not in f.params or not name.startswith('compute_'):
+                continue
+            n += 1
+            cl = make_classifier({'view'})
+            out, env = position_arithmetic(f.node, cl, {'view': frozenset([REL])})
+            ctx.ob(R, f.construct, 'no entry of the view is used as an absolute position', not out,
+                   detail='%s computes with a bound of the caller\'s view as if it were an absolute position: `%s` - a slice with a negative '
+                          'or absent bound (slice(-4, None)) is a legal view, and the statistic is then taken over other elements than the '
+                          'view of the data; normalise with slice.indices(n) first' % (f.construct, '`, `'.join(t for _, t in out[:3])),
+                   where=where(f, out[0][0]) if out else f.where)
+    if n < 2:
+        raise AnalysisError('compute_statistic with a view parameter not found on Data / BaseCartesianData')
